@@ -4,6 +4,7 @@
 package sigfake
 
 import (
+	"sync"
 	"context"
 	"errors"
 	"fmt"
@@ -102,32 +103,55 @@ type Duplex struct {
 	// open is closed while the client drains its responses; a stalled call
 	// (StallFromStart) has it open until Resume: the server's Send blocks
 	// (back-pressure) until then or until the call's context ends.
-	open    chan struct{}
-	resumed bool
+	gmu  sync.Mutex
+	open chan struct{}
 }
 
 // StallFromStart makes the server's Sends on this call block until Resume.
 // It must be called before the call is started.
 func (d *Duplex) StallFromStart() { d.open = make(chan struct{}) }
 
+// Stall makes the server's subsequent Sends on this call block until Resume
+// (a Send already past the gate completes).
+func (d *Duplex) Stall() {
+	d.gmu.Lock()
+	if d.open == nil {
+		d.open = make(chan struct{})
+	}
+	d.gmu.Unlock()
+}
+
+// Stalled reports whether the server's Sends on this call currently block.
+func (d *Duplex) Stalled() bool {
+	d.gmu.Lock()
+	defer d.gmu.Unlock()
+	return d.open != nil
+}
+
 // Resume lets the server's Sends proceed.
 func (d *Duplex) Resume() {
-	if d.open != nil && !d.resumed {
-		d.resumed = true
+	d.gmu.Lock()
+	if d.open != nil {
 		close(d.open)
+		d.open = nil
 	}
+	d.gmu.Unlock()
 }
 
 // gate blocks a server-side Send while the call is stalled.
 func (d *Duplex) gate() error {
-	if d.open == nil {
-		return nil
-	}
-	select {
-	case <-d.open:
-		return nil
-	case <-d.ctx.Done():
-		return context.Canceled
+	for {
+		d.gmu.Lock()
+		ch := d.open
+		d.gmu.Unlock()
+		if ch == nil {
+			return nil
+		}
+		select {
+		case <-ch:
+		case <-d.ctx.Done():
+			return context.Canceled
+		}
 	}
 }
 
@@ -169,7 +193,21 @@ func (s SrvSession) Recv() (*signaling.SessionRequest, error) {
 	}
 	return m.(*signaling.SessionRequest), nil
 }
-func (s SrvSession) RecvTo(m *signaling.SessionRequest) error { return errors.New("unused") }
+
+// RecvTo decodes the next request INTO m the way the real transport does
+// (starpc's MsgRecv calls UnmarshalVT on the target without resetting it:
+// fields absent on the wire keep their previous values).
+func (s SrvSession) RecvTo(m *signaling.SessionRequest) error {
+	x, err := s.ToSrv.Pop(s.ctx)
+	if err != nil {
+		return err
+	}
+	b, err := x.(*signaling.SessionRequest).MarshalVT()
+	if err != nil {
+		return err
+	}
+	return m.UnmarshalVT(b)
+}
 func (s SrvSession) Close() error                             { return nil }
 
 var _ signaling.SRPCSignaling_SessionStream = SrvSession{}
@@ -209,7 +247,17 @@ func (c CliSession) Recv() (*signaling.SessionResponse, error) {
 	}
 	return m.(*signaling.SessionResponse), nil
 }
-func (c CliSession) RecvTo(m *signaling.SessionResponse) error { return errors.New("unused") }
+func (c CliSession) RecvTo(m *signaling.SessionResponse) error {
+	x, err := c.ToCli.Pop(c.ctx)
+	if err != nil {
+		return err
+	}
+	b, err := x.(*signaling.SessionResponse).MarshalVT()
+	if err != nil {
+		return err
+	}
+	return m.UnmarshalVT(b)
+}
 func (c CliSession) Close() error {
 	c.cancel()
 	c.ToSrv.Close(io.EOF)
@@ -228,7 +276,17 @@ func (c CliListen) Recv() (*signaling.ListenResponse, error) {
 	}
 	return m.(*signaling.ListenResponse), nil
 }
-func (c CliListen) RecvTo(m *signaling.ListenResponse) error { return errors.New("unused") }
+func (c CliListen) RecvTo(m *signaling.ListenResponse) error {
+	x, err := c.ToCli.Pop(c.ctx)
+	if err != nil {
+		return err
+	}
+	b, err := x.(*signaling.ListenResponse).MarshalVT()
+	if err != nil {
+		return err
+	}
+	return m.UnmarshalVT(b)
+}
 func (c CliListen) Close() error {
 	c.cancel()
 	return nil
